@@ -16,7 +16,7 @@ Definition wf_descr (d : pystr) : bool :=
   match d with
   | k :: r => kind_char k
               && match rev r with
-                 | o :: lab => is_digit o && (digit_val o <=? 3)%nat && forallb is_alnum lab
+                 | o :: lab => is_digit o && (digit_val o <=? 4)%nat && forallb is_alnum lab
                  | [] => false
                  end
   | [] => false
